@@ -30,3 +30,7 @@ def run(F, X, rep):
     # in-memory side: every lifecycle path - the failed-write exits included - ends by answering, which removes the table
     # entry; an entry left behind without a lifecycle would swallow every later HTLC of that hash until restart
     R.p2_exactly_one_answer(C, rep, "C09-E")
+    # the recovery path (stored Pending) hangs on wait_payment: a failed part must not turn into an Err there (the
+    # lifecycle has no way to recover from it: D7), nor into `nothing pending` while a part is alive
+    import rules_provider as P
+    P.v_wait_payment(C, rep, "C09-V")
